@@ -810,6 +810,13 @@ func (env *Env) evalCall(e *ECall) TV {
 			efail("sent() of a non-channel")
 		}
 		return TV{V: vInt(mkSelect(ex.get(env.st, chSentKey(x.T), SArr(SInt, SInt)), x.V.T)), T: untypedInt}
+	case "closed":
+		// closed(ch): the channel has been closed (ghost flag set by the close builtin)
+		x := env.eval(e.Args[0])
+		if _, ok := x.T.Underlying().(*types.Chan); !ok {
+			efail("closed() of a non-channel")
+		}
+		return TV{V: vBool(mkSelect(ex.get(env.st, "CH.closed", SArr(SInt, SBool)), x.V.T)), T: tBool}
 	case "prev":
 		// prev(x): the value the loop-carried local x had at the head of the current iteration;
 		// a local the loop never assigns has the same value throughout
